@@ -329,7 +329,7 @@ def _nt(data, kind):
 
 
 def shards(tier):
-    per = 40 if tier == "quick" else 800
+    per = 40 if tier == "quick" else 2500
     return [{"kind": "inject", "n": per, "idx": i} for i in range(16)]
 
 
